@@ -3,8 +3,8 @@ PROPERTY = 'C02'
 LEVEL = 'model_checking'
 ENGINE = 'E1'
 RULE = ('exhaustive enumeration of (trace-set size N, batch-size setting) and of run() histories on real analysis objects: (a) recorder pipeline - a harness Distinguisher subclass records what run() feeds it: '
-        'every (N in 1..9) x (integer batch size 1..10), MB-float settings and size tables straddling the trace length, every frame of a 12-entry menu (None, slices, stepped slice, index lists incl. unsorted and '
-        'repeated indices, ndarray, range, single point) x every chain of a 9-entry menu of row-wise preprocess chains (order-sensitive, length-changing), Attack and Reverse, histories of 1..3 run() calls with the '
+        'every (N in 1..9) x (integer batch size 1..10), MB-float settings and size tables straddling the trace length, every frame of a 17-entry menu (None, slices, stepped / reversed slices, index lists incl. unsorted, repeated '
+        'and negative indices, ndarrays, ascending / descending / negative ranges, single point) x every chain of a 9-entry menu of row-wise preprocess chains (order-sensitive, length-changing), Attack and Reverse, histories of 1..3 run() calls with the '
         'batch size changed in between; (b) real distinguishers - CPA/DPA/ANOVA/NICV/SNR/MIA x Attack/Reverse x precision on every (N, batch size) pair, explicit and first-batch-determined class sets, every '
         'discriminant, two- and three-run histories vs. one run on the concatenation. A case = one run history; non-trivial = more than one batch or more than one run')
 ASSUMPTIONS = ['numpy/numba/estraces trusted', 'preprocesses in chains are row-wise (batch-mean centering is excluded by the property)', 'exact pools: stand-alone one-batch results must be bit-identical',
@@ -18,7 +18,8 @@ LEVEL_NOTE = 'Trusted: numpy, numba, estraces RAM reader, references. Bound: N<=
 DESIGN_REF = 'DESIGN.md section 3, C02'
 
 FRAMES = [('none', None), ('slice', slice(1, 4)), ('step', slice(0, 6, 2)), ('list', [0, 2, 3]), ('ndarray', 'np:4,1'), ('range', range(2, 5)), ('single', [3]),
-          ('unsorted', [0, 2, 1, 3]), ('repeat', [2, 4, 4, 5]), ('nd-unsorted', 'np:1,3,2,4'), ('ellipsis', Ellipsis), ('neg', slice(-3, None))]
+          ('unsorted', [0, 2, 1, 3]), ('repeat', [2, 4, 4, 5]), ('nd-unsorted', 'np:1,3,2,4'), ('ellipsis', Ellipsis), ('neg', slice(-3, None)),
+          ('range-desc', range(5, -1, -1)), ('range-neg', range(-3, 0)), ('list-neg', [-1, 0, -2]), ('slice-rev', slice(None, None, -1)), ('nd-neg', 'np:-1,2')]
 CHAINS = [[], ['affine'], ['affine', 'cube_minus'], ['cube_minus', 'affine'], ['drop_first'], ['pairsum', 'affine'], ['square'], ['serialize_bit'], ['drop_first', 'pairsum', 'cube_minus']]
 
 
@@ -168,7 +169,7 @@ def _pipeline_case(col, seed, c):
         if a.processed_traces != len(allset['idx']):
             col.violation('C02/pipeline/counter', '%s: processed_traces=%d after %d traces' % (label, a.processed_traces, len(allset['idx'])), c)
         expR = expD.astype('float64').T @ expT.astype('float64')
-        if a.results is None or not np.array_equal(np.asarray(a.results).reshape(expR.shape), expR):
+        if a.results is None or np.asarray(a.results).size != expR.size or not np.array_equal(np.asarray(a.results).reshape(expR.shape), expR):
             col.violation('C02/pipeline/results-stale', '%s: results after run %d are not the compute() of the state after that run' % (label, ri + 1), c)
         if kind == 'attack' and not np.array_equal(a.scores, asys.py_discriminant('nansum', np.asarray(a.results)), equal_nan=True):
             col.violation('C02/pipeline/scores', '%s: scores != discriminant(results)' % label, c)
